@@ -63,6 +63,11 @@ def handle (st : St) : List Str → St × Str
         let t := inplace (unhex tag) (unhex out)
         (t.run st, hex (t.bytes st))
       | _ => (st, str "bad-op")
+    else if op = str "runwild" then
+      -- the output goes to a directory of its own: package p's tree is unchanged
+      match rest with
+      | [tag, out] => (st, hex ((inplace (unhex tag) (unhex out)).bytes st))
+      | _ => (st, str "bad-op")
     else if op = str "header" then
       match rest with
       | [which, tag] =>
